@@ -450,6 +450,22 @@ func (r *Runner) Exec(act Action) (res Result) {
 			a.RPC.Add(h)
 		}
 		a.Pending = nil
+	case "ExportImport":
+		// stop this chain after a Commit, export its state, start a NEW chain (fresh database, height 0)
+		// from the export; the genesis time is the current block time
+		gen := a.ExportState()
+		na, err := New(a.Cfg, nil, a.RPC)
+		if err != nil {
+			panic(err)
+		}
+		na.GenOverride = gen
+		na.GenTime = r.Tick
+		r.A = na
+		r.TM = nil
+		out := na.InitChain()
+		res.Updates, res.UpdDup = na.updates(out.Validators)
+		res.Events = evDigest(res.Updates)
+		res.TmErr = r.applyTM(out.Validators)
 	case "Restart":
 		hdr := a.Hdr
 		na, err := New(a.Cfg, a.DB, a.RPC)
